@@ -21,7 +21,8 @@ or loaded before.  The checks therefore never present the code under test with a
   exception is swallowed, as a caller's try / except would) before the call under test; the instance switched to
   `eval()` mode for good; the call under test made inside a `torch.autocast('cpu')` region when all its tensors and the
   buffers are float64 (autocast does not touch float64).  Round 11: the call under test is made on a pickle round trip or a
-  `copy.deepcopy` of the instance.
+  `copy.deepcopy` of the instance; the call under test is made while the process default dtype is float32 although instance and
+  data are float64 (single-threaded phases only).
 
 None of these steps may change the result of the call under test; if one does, the correspondence or
 the oracle that issued the call reports the difference with that call as the failing input.
@@ -209,6 +210,8 @@ def _alt(t, k=1):
 
 
 def _recipe(name, args):
+    if STATE.get('force_bits'):
+        return STATE['force_bits']
     h = hashlib.sha256()
     h.update(('%d|%s' % (STATE['seed'], name)).encode())
     for t in _tensors(args, []):
@@ -218,7 +221,7 @@ def _recipe(name, args):
     v = int.from_bytes(h.digest()[:8], 'big')
     if (v & 0xFFFF) / 65536.0 >= STATE['p']:
         return 0
-    return ((v >> 16) & 0x7FFF) or 1
+    return ((v >> 16) & 0xFFFF) or 1
 
 
 def _single(args):
@@ -362,6 +365,16 @@ def _all_f64(self, args):
     return bool(ts) and all(t.dtype == torch.float64 for t in ts)
 
 
+def _vp_call(orig, target, args, kw, bits, self):
+    if bits & 0x1000 and _all_f64(self, args):
+        # float64 is not eligible for autocast: the region must change nothing
+        import torch
+        STATS['call_in_autocast_region'] += 1
+        with torch.autocast('cpu', dtype=torch.bfloat16):
+            return orig(target, *args, **kw)
+    return orig(target, *args, **kw)
+
+
 def _season_class(cls):
     """wrap `cls.__call__` (inherited from nn.Module) in place: the class object, its name and its
     methods stay the library's own"""
@@ -394,14 +407,21 @@ def _season_class(cls):
             except Exception:
                 target = self
                 STATS['copy_of_instance_failed'] += 1
-        if bits & 0x1000 and _all_f64(self, args):
-            # float64 is not eligible for autocast: the region must change nothing
-            import torch
-            STATS['call_in_autocast_region'] += 1
-            with torch.autocast('cpu', dtype=torch.bfloat16):
-                out = orig(target, *args, **kw)
-        else:
-            out = orig(target, *args, **kw)
+        flip_default = False
+        if bits & 0x8000 and _all_f64(self, args):
+            # the process default dtype at CALL time is float32 (the stock default) although instance and data are float64: the default
+            # only matters where new tensors are created without a dtype, which a transform of float64 data must not do
+            import torch, threading
+            if threading.active_count() == 1 and torch.get_default_dtype() == torch.float64:
+                flip_default = True
+                torch.set_default_dtype(torch.float32)
+                STATS['call_under_float32_default'] += 1
+        try:
+            out = _vp_call(orig, target, args, kw, bits, self)
+        finally:
+            if flip_default:
+                import torch
+                torch.set_default_dtype(torch.float64)
         if bits & 0x300:
             # AFTER the call under test: the same instance (and a fresh twin) transform other data of the same
             # shape.  What the first call returned must not change (no shared output workspace).
@@ -431,6 +451,19 @@ def install(seed):
         cls = getattr(importlib.import_module(modname), name)
         if not cls.__dict__.get('_vp_seasoned'):
             _season_class(cls)
+
+
+class force:
+    """context manager: the first call of every instance built inside gets exactly these history bits (deterministic covering
+    cases: e.g. 0x8000 = the call under test made while the process default dtype is float32)"""
+    def __init__(self, bits):
+        self.bits = bits
+
+    def __enter__(self):
+        self.prev = STATE.get('force_bits'); STATE['force_bits'] = self.bits
+
+    def __exit__(self, *a):
+        STATE['force_bits'] = self.prev
 
 
 class off:
